@@ -6,10 +6,14 @@ TEXT = {
           "sporks never remove a method (tables_monotone), gated methods are available exactly when their own spork is "
           "enforced along the order accelerator/bridge/htlc (gate_in_order_partial; negative witness for out-of-order "
           "activation); over the spork state machine: activity is monotone in height, on exactly from acknowledged height + "
-          "delay, never at the genesis store, activation cannot be repeated, only the designated keys (community key only "
-          "inside its window) succeed, the unimplemented-spork report is non-empty iff an enforced spork is unknown. Tied "
+          "delay, never at the genesis store, activation cannot be repeated, only the designated keys succeed — the community "
+          "key only while the frontier height the executing contract sees lies inside its window, for every window "
+          "(spork_authority_window, community_outside_window / community_inside_window; the mainnet window is a regenerated "
+          "constant) — the unimplemented-spork report is non-empty iff an enforced spork is unknown. Tied "
           "to the code by scenarios on a real node comparing every call outcome, IsSporkActive on every height, the report "
-          "and method availability around each enforcement height.",
+          "and method availability around each enforcement height; a third of the scenarios run the real contract with a "
+          "community key the harness holds and a window of a few momentums (calls before, inside, after the window, also "
+          "acknowledging an older momentum inside it).",
   "design_ref": "§3 C17",
   "note": "Method tables enter as generated facts (trusted extractor calling the real function); F17 (out-of-order "
           "activation exposes features of not-enforced sporks) is a known finding.",
@@ -21,8 +25,11 @@ TEXT = {
           "frontier is the fold of the accepted patches (state_is_fold_of_patches), a view at the acknowledged momentum is "
           "independent of how far the frontier has moved (view_independent_of_frontier), change sets are write-order "
           "independent; generated fact: no wall-clock/random/goroutine site outside the reviewed list. Tied to the code by "
-          "a producer + five followers under generated delivery schedules with byte-exact state comparison and by feeding "
-          "the real redo patches through the model.",
+          "a producer + six followers under generated delivery schedules (batches, gossip ahead, gossiped RIVAL blocks of the "
+          "same account and height, restarts, overlaps) with byte-exact state comparison, by feeding the real redo patches "
+          "through the model, and by a deep scenario: a chain longer than the near-cache window (360), historical views near "
+          "and far materialised before the head momentum is replaced by a delivered branch, every view compared warm, after "
+          "restart and on a node that only saw the final chain.",
   "design_ref": "§3 C02",
   "note": "Hash functions are parameters; determinism of the Go VM itself is correspondence (multi-node) + AST fact.",
   "technique": "Lean 4 refinement corollaries + regenerated AST fact + multi-node differential replay",
